@@ -122,6 +122,9 @@ def describe(tree, depth=0):
     """Address-free rendering for logs / evidence samples."""
     if depth > 8:
         return '...'
+    if hasattr(type(tree), '__optree_dataclass_fields__'):
+        import dataclasses as _dc
+        return '%s(%s)' % (type(tree).__name__, ','.join('%s=%s' % (f.name, describe(getattr(tree, f.name), depth + 1)) for f in _dc.fields(tree)))
     if isinstance(tree, U.Node):
         return '%s(%s|aux=%r)' % (type(tree).__name__, ','.join(describe(c, depth + 1) for c in tree.children), tree.aux)
     if isinstance(tree, tuple) and hasattr(tree, '_fields'):
